@@ -177,4 +177,175 @@ theorem tick_rel_err_crude_float (p : Params Float) (fuel : Nat) (ds : List Floa
         nlinarith
     _ = ((k : ℚ) + 1) ^ 2 * (2 : ℚ) ^ (-52 : Int) * toRat p.tickDist := by rw [h52]; ring
 
+/-! ## after `SliderEventsIter::new`: `len ≤ 100000`, no finiteness hypothesis left, and an absolute bound -/
+
+/-- the `len` a successful `SliderEventsIter::new` leaves is a finite double (`0 ≤ len ≤ 100000`). -/
+theorem len_finite_after_new_float {start dur vel td total : Float} {n : Int} {p : Params Float}
+    (hnew : Params.new start dur vel td total n = some p) : p.len.isFinite = true := by
+  obtain ⟨h0, h1, _, _⟩ := new_clamps_float hnew
+  exact FMO.finite_of_bounds_float (0 : Float) (100000 : Float) p.len rfl (by decide +kernel)
+    (FMO.not_nan_of_le h0).2 (FMO.not_lt_of_le _ _ h0) (FMO.not_lt_of_le _ _ h1)
+
+/-- **ticks_near_multiples_float for every input `SliderEventsIter::new` accepts** (the clamp `len ≤ 100000` makes
+every loop value finite): `(k+1)·t·(1 − 2⁻⁵³)^k ≤ toRat ds[k] ≤ (k+1)·t·(1 + 2⁻⁵³)^k`. -/
+theorem ticks_near_multiples_after_new_float {start dur vel td total : Float} {n : Int} {p : Params Float}
+    (hnew : Params.new start dur vel td total n = some p) (fuel : Nat) (ds : List Float)
+    (h : spanTickDists p fuel = some ds) (k : Nat) (hk : k < ds.length) :
+    ((k : ℚ) + 1) * toRat p.tickDist * (1 - u₅₃) ^ k ≤ toRat ds[k] ∧
+    toRat ds[k] ≤ ((k : ℚ) + 1) * toRat p.tickDist * (1 + u₅₃) ^ k :=
+  ticks_near_multiples_float p fuel ds h (len_finite_after_new_float hnew) k hk
+
+theorem unpack_100000 :
+    (100000 : Float).toModel.unpack = .finite .positive (100000 * 2 ^ 36) (-36) (by decide) := by
+  have : (100000 : Float) = Float.ofBits 0x40F86A0000000000 := by decide +kernel
+  rw [this, FM.float_unpack_ofBits _ (by decide)]
+  rfl
+
+theorem toRat_100000 : toRat (100000 : Float) = 100000 := by
+  rw [toRat_of_unpack unpack_100000]
+  norm_num [sgnQ]
+
+/-- one turn of the accumulation, absolute form: the new error is the old one plus at most `2⁻⁵³·(D + T)`, and
+`D + T ≤ 100000 / (1 − 2⁻⁵³) < 2¹⁷` because the rounded sum is `≤ 100000`. -/
+theorem abs_step (T D D' δ : ℚ) (k : Nat) (hS : 0 < D + T) (hδ : |δ| ≤ u₅₃) (hD' : D' = (D + T) * (1 + δ))
+    (hB : D' ≤ 100000) (hE : |D - ((k : ℚ) + 1) * T| ≤ (k : ℚ) * (2 : ℚ) ^ (-36 : Int)) :
+    |D' - (((k + 1 : Nat) : ℚ) + 1) * T| ≤ ((k + 1 : Nat) : ℚ) * (2 : ℚ) ^ (-36 : Int) := by
+  obtain ⟨hδ1, hδ2⟩ := abs_le.mp hδ
+  have hu : u₅₃ = 1 / 2 ^ 53 := by norm_num
+  have h36 : (2 : ℚ) ^ (-36 : Int) = 1 / 2 ^ 36 := by norm_num
+  rw [hu] at hδ hδ1 hδ2
+  rw [h36] at hE ⊢
+  -- `S·(1 − u) ≤ S·(1 + δ) ≤ 100000`, hence `u·S ≤ 2⁻³⁶`
+  have hS1 : (D + T) * (1 - 1 / 2 ^ 53) ≤ 100000 := by
+    have : (D + T) * (1 - 1 / 2 ^ 53) ≤ (D + T) * (1 + δ) := mul_le_mul_of_nonneg_left (by linarith) hS.le
+    linarith
+  have hSu : (1 / 2 ^ 53 : ℚ) * (D + T) ≤ 1 / 2 ^ 36 := by
+    have hS2 : D + T ≤ 100000 / (1 - 1 / 2 ^ 53) := by
+      rw [le_div_iff₀ (by norm_num)]; exact hS1
+    have : (1 / 2 ^ 53 : ℚ) * (100000 / (1 - 1 / 2 ^ 53)) ≤ 1 / 2 ^ 36 := by norm_num
+    calc (1 / 2 ^ 53 : ℚ) * (D + T) ≤ (1 / 2 ^ 53 : ℚ) * (100000 / (1 - 1 / 2 ^ 53)) :=
+          mul_le_mul_of_nonneg_left hS2 (by norm_num)
+      _ ≤ 1 / 2 ^ 36 := this
+  have hδS : |δ * (D + T)| ≤ 1 / 2 ^ 36 := by
+    rw [abs_mul, abs_of_pos hS]
+    exact le_trans (mul_le_mul_of_nonneg_right hδ hS.le) hSu
+  have e : D' - (((k + 1 : Nat) : ℚ) + 1) * T = (D - ((k : ℚ) + 1) * T) + δ * (D + T) := by
+    rw [hD']; push_cast; ring
+  rw [e]
+  calc |(D - ((k : ℚ) + 1) * T) + δ * (D + T)| ≤ |D - ((k : ℚ) + 1) * T| + |δ * (D + T)| := abs_add_le _ _
+    _ ≤ (k : ℚ) * (1 / 2 ^ 36) + 1 / 2 ^ 36 := add_le_add hE hδS
+    _ = ((k + 1 : Nat) : ℚ) * (1 / 2 ^ 36) := by push_cast; ring
+
+/-- **absolute bound after `new`**: every tick distance is a double `≤ 100000 < 2¹⁷`, so each of the `k` rounded
+additions errs by at most `2⁻³⁶` (half an ulp there is `2⁻³⁷`; the cruder constant needs no case analysis):
+
+    `|toRat ds[k] − (k+1)·t| ≤ k · 2⁻³⁶`      (osu!pixels, whatever the tick distance). -/
+theorem tick_abs_err_after_new_float {start dur vel td total : Float} {n : Int} {p : Params Float}
+    (hnew : Params.new start dur vel td total n = some p) (fuel : Nat) (ds : List Float)
+    (h : spanTickDists p fuel = some ds) :
+    ∀ (k : Nat) (hk : k < ds.length),
+      |toRat ds[k] - ((k : ℚ) + 1) * toRat p.tickDist| ≤ (k : ℚ) * (2 : ℚ) ^ (-36 : Int) := by
+  obtain ⟨_, _, hfirst, hstep⟩ := span_tick_dists_increasing_float p fuel ds h
+  have hlen := len_finite_after_new_float hnew
+  have hfin := tick_dists_finite_float p fuel ds h hlen
+  obtain ⟨_, hall⟩ := ticks_after_new_float hnew fuel ds h
+  intro k
+  induction k with
+  | zero => intro hk; rw [hfirst hk]; simp
+  | succ k ih =>
+    intro hk
+    have hE := ih (by omega)
+    have h0 : 0 < ds.length := by omega
+    have htf : p.tickDist.isFinite = true ∧ Scalar.lt (0 : Float) p.tickDist = true := by
+      rw [← hfirst h0]; exact hfin _ (List.getElem_mem h0)
+    have hT := toRat_pos _ htf.2 htf.1
+    obtain ⟨hkf, hkpos⟩ := hfin _ (List.getElem_mem (show k < ds.length by omega))
+    have hD := toRat_pos _ hkpos hkf
+    have hk1f := (hfin _ (List.getElem_mem hk)).1
+    have hB : toRat ds[k + 1] ≤ 100000 := by
+      rw [← toRat_100000]
+      exact toRat_le_of_le _ _ hk1f (by decide +kernel) (hall _ (List.getElem_mem hk)).2.2.1
+    have hs := hstep k hk
+    have hk1f' := hk1f
+    rw [hs] at hk1f'
+    obtain ⟨δ, hδ, hv⟩ := add_err_float _ _ hkf htf.1 hk1f'
+    exact abs_step (toRat p.tickDist) (toRat ds[k]) (toRat ds[k + 1]) δ k (by linarith) hδ
+      (by rw [hs]; exact hv) hB hE
+
+/-! ## non-vacuity: `t = 0.1` (kernel-evaluated) -/
+
+section Examples
+open Float.Model Float.Model.UnpackedFloat
+
+/-- the seven tick distances of `exG` (Props/C20IeeeTicks.lean: `tick_dist = 0.1`, `len = 1`, `min_dist = 0.25`):
+`0.1, 0.2, 0.30000000000000004, 0.4, 0.5, 0.6, 0.7` minus an ulp …, as bit patterns. -/
+def exGds : List Float :=
+  [Float.ofBits 0x3FB999999999999A, Float.ofBits 0x3FC999999999999A, Float.ofBits 0x3FD3333333333334,
+   Float.ofBits 0x3FD999999999999A, Float.ofBits 0x3FE0000000000000, Float.ofBits 0x3FE3333333333333,
+   Float.ofBits 0x3FE6666666666666]
+
+/-- the hypotheses of `ticks_near_multiples_float` / `…_after_new_float` on closed doubles. -/
+theorem exG_run : spanTickDists exG 20 = some exGds := by decide +kernel
+theorem exG_len_finite : exG.len.isFinite = true := by decide +kernel
+theorem exG_new : Params.new (0 : Float) 1000 0.025 0.1 1 1 = some exG := by decide +kernel
+
+/-- the headline on the third tick of `exG` (`k = 2`, two rounded additions). -/
+example : (3 : ℚ) * toRat exG.tickDist * (1 - u₅₃) ^ 2 ≤ toRat (Float.ofBits 0x3FD3333333333334) ∧
+    toRat (Float.ofBits 0x3FD3333333333334) ≤ (3 : ℚ) * toRat exG.tickDist * (1 + u₅₃) ^ 2 := by
+  have := ticks_near_multiples_float exG 20 exGds exG_run exG_len_finite 2 (by decide)
+  norm_num at this
+  norm_num
+  exact this
+
+theorem unpack_tenth :
+    exG.tickDist.toModel.unpack = .finite .positive 7205759403792794 (-56) (by decide) := by
+  have : exG.tickDist = Float.ofBits 0x3FB999999999999A := by decide +kernel
+  rw [this, FM.float_unpack_ofBits _ (by decide)]
+  rfl
+
+theorem unpack_third_tick :
+    (Float.ofBits 0x3FD3333333333334).toModel.unpack = .finite .positive 5404319552844596 (-54) (by decide) := by
+  rw [FM.float_unpack_ofBits _ (by decide)]
+  rfl
+
+/-- the exact values: `0.1` as a double is `7205759403792794 · 2⁻⁵⁶` (slightly above `1/10`). -/
+theorem toRat_tenth : toRat exG.tickDist = 7205759403792794 / 2 ^ 56 := by
+  rw [toRat_of_unpack unpack_tenth]; norm_num [sgnQ]
+
+/-- **exact equality fails in binary64**: the third tick distance of `exG` is `3 · t + 2⁻⁵⁵`, not `3 · t` … -/
+theorem exG_third_tick_off : toRat exGds[2] = 3 * toRat exG.tickDist + (2 : ℚ) ^ (-55 : Int) := by
+  show toRat (Float.ofBits 0x3FD3333333333334) = _
+  rw [toRat_of_unpack unpack_third_tick, toRat_tenth]; norm_num [sgnQ]
+
+theorem exG_third_tick_ne : toRat exGds[2] ≠ 3 * toRat exG.tickDist := by
+  rw [exG_third_tick_off]; norm_num
+
+/-- … and the deviation `2⁻⁵⁵` is within `tick_rel_err_float`'s bound `3·t·((1 + 2⁻⁵³)² − 1) ≈ 0.6·2⁻⁵³`, within the crude
+bound `9·2⁻⁵²·t`, and within the absolute bound `2·2⁻³⁶` (instances of the theorems; the numbers are checked too). -/
+example : |toRat exGds[2] - 3 * toRat exG.tickDist| ≤ 3 * toRat exG.tickDist * ((1 + u₅₃) ^ 2 - 1) := by
+  have := tick_rel_err_float exG 20 exGds exG_run exG_len_finite 2 (by decide)
+  norm_num at this ⊢
+  exact this
+
+example : |toRat exGds[2] - 3 * toRat exG.tickDist| ≤ 9 * (2 : ℚ) ^ (-52 : Int) * toRat exG.tickDist := by
+  have := tick_rel_err_crude_float exG 20 exGds exG_run exG_len_finite 2 (by decide) (by decide)
+  norm_num at this ⊢
+  exact this
+
+example : |toRat exGds[2] - 3 * toRat exG.tickDist| ≤ 2 * (2 : ℚ) ^ (-36 : Int) := by
+  have := tick_abs_err_after_new_float exG_new 20 exGds exG_run 2 (by decide)
+  norm_num at this ⊢
+  exact this
+
+/-- the standard model of addition on the two additions behind that tick, with the `δ` made explicit:
+`0.1 + 0.1 = 0.2` is exact (`δ = 0`), `0.2 + 0.1` rounds up by `2⁻⁵⁵`. -/
+example : toRat (exG.tickDist + exG.tickDist) = toRat exG.tickDist + toRat exG.tickDist := by
+  have h2 : (exG.tickDist + exG.tickDist).toModel.unpack = .finite .positive 7205759403792794 (-55) (by decide) := by
+    have : exG.tickDist + exG.tickDist = Float.ofBits 0x3FC999999999999A := by decide +kernel
+    rw [this, FM.float_unpack_ofBits _ (by decide)]
+    rfl
+  rw [toRat_of_unpack h2, toRat_tenth]; norm_num [sgnQ]
+
+end Examples
+
 end Rosu.C20
